@@ -4869,6 +4869,22 @@ let frame_ok temps pushes sub_bytes =
             (Z.mul (Zpos (XO (XO (XO XH)))) pushes)) sub_bytes) (Zpos (XO (XO
         (XO (XO XH)))))) Z0)
 
+(** val mov_unsafe_ok : z -> binstr -> mins list -> bool **)
+
+let mov_unsafe_ok w i code =
+  match i with
+  | MovP d ->
+    (&&)
+      ((||)
+        ((||)
+          ((||) (Z.eqb w (Zpos (XO (XO (XO XH)))))
+            (Z.eqb w (Zpos (XO (XO (XO (XO XH)))))))
+          (Z.eqb w (Zpos (XO (XO (XO (XO (XO XH))))))))
+        (Z.eqb w (Zpos (XO (XO (XO (XO (XO (XO XH)))))))))
+      (code_eqb code ((MAddRbp
+        (Z.mul (Z.div w (Zpos (XO (XO (XO XH))))) d)) :: []))
+  | _ -> false
+
 type kind =
 | KPrintIr
 | KPrintBc
